@@ -323,6 +323,29 @@ def inactive_setup_lines(lines, flavor=HARNESS_FLAVOR):
     return out
 
 
+def setup_in_block_with_else(lines):
+    """True when a setup / unsetup line of the table stands inside an `if` block that has an else branch: the expander then
+    nests its `if (type …) {` block inside that block, which the (nesting-free) table parser reads with the else branch
+    turned into unconditional commands."""
+    depth, has_setup, has_else = 0, False, False
+    for l in lines:
+        if l["k"] == "raw":
+            t = l["text"].split("#")[0].strip()
+            if re.match(r"^if\s*\(.*\)\s*{$", t):
+                depth += 1
+                if depth == 1:
+                    has_setup = has_else = False
+            elif re.match(r"^}\s*else\b.*{$", t):
+                has_else = True
+            elif t == "}" and depth > 0:
+                depth -= 1
+                if depth == 0 and has_setup and has_else:
+                    return True
+        elif l["k"] in ("setup", "unsetup") and depth > 0:
+            has_setup = True
+    return depth > 0 and has_setup and has_else          # (a block left open at the end of the table counts as well)
+
+
 def has_unsetup(case):
     return any(l["k"] == "unsetup" for _, _, lines in case["decl"] for l in lines)
 
